@@ -6,6 +6,7 @@ CONSTANTS
   Encodings = {"json"}
   MaxCrashes = 0
   WithDrop = FALSE
+  ClearOffEarly = FALSE
 VIEW View
 INVARIANT ImportedEqualsExported
 CHECK_DEADLOCK FALSE
